@@ -378,6 +378,9 @@ func provablyPositive(v ssa.Value, facts map[ssa.Value]*intFact, depth int) bool
 	if f, ok := facts[v]; ok && f.pos {
 		return true
 	}
+	if f, ok := facts[v]; ok && f.nonZero && provablyNonNeg(v, map[ssa.Value]*intFact{}, depth+1) {
+		return true
+	}
 	if depth > 4 {
 		return false
 	}
@@ -503,6 +506,7 @@ var frozenMake = map[string]string{
 	"(*common/reedsolomon.GenericGFPoly).Multiply:make#0":          "aLength + bLength - 1 with both coefficient lists non-empty (NewGenericGFPoly rejects empty lists)",
 	"(*aztec/decoder.Decoder).correctBits:make#1":                  "stuffedBits counts at most one position per data codeword, each codeword having codewordSize >= 6 bits, so the difference is >= 0",
 	"(*common/reedsolomon.GenericGFPoly).MultiplyByMonomial:make#0": "size + degree with degree >= 0 checked above",
+	"(oned.codabarEncoder).encodeWithHints:make#0":                  "contents has at least two characters on this path (shorter input gets the default guards added), so len(contents) - 1 >= 1 and resultLength starts at 20",
 }
 
 func runEMAKE(c *Ctx, r *Report, reach map[*ssa.Function]bool, scope string) {
@@ -562,6 +566,19 @@ var frozenDiv = map[string]string{
 	"datamatrix/decoder.DataBlocks_getDataBlocks:div#0":           "inside `for j := 0; j < numResultBlocks`, so numResultBlocks >= 1",
 	"datamatrix/decoder.extractDataRegion:div#0":                  "dataRegionSizeRows is a positive entry of the versions table (T-DMVER)",
 	"datamatrix/decoder.extractDataRegion:div#1":                  "dataRegionSizeColumns is a positive entry of the versions table (T-DMVER)",
+	"datamatrix.convertByteMatrixToBitMatrix:div#0":               "matrixWidth is the width of the ByteMatrix built by encodeLowLevel from a symbols row: >= 10",
+	"datamatrix.convertByteMatrixToBitMatrix:div#1":               "matrixHeight >= 8 (see div#0)",
+	"datamatrix.encodeLowLevel:div#0":                             "GetMatrixHeight() is the positive region height of a symbols row (T-DMSYM)",
+	"datamatrix.encodeLowLevel:div#1":                             "GetMatrixWidth() is the positive region width of a symbols row (T-DMSYM)",
+	"datamatrix.encodeLowLevel:div#2":                             "GetMatrixHeight() > 0 (see div#0)",
+	"datamatrix.encodeLowLevel:div#3":                             "GetMatrixWidth() > 0 (see div#1)",
+	"datamatrix/encoder.defaultGetInterleavedBlockCount:div#0":    "rsBlockData is positive for every row that keeps the default function; the 144x144 row (rsBlockData = -1) installs its own (T-DM144)",
+	"qrcode.renderResult:div#0":                                   "qrWidth = odd matrix dimension + 2*quietZone is odd, hence never zero",
+	"qrcode.renderResult:div#1":                                   "qrHeight is odd (see div#0)",
+	"qrcode/encoder.MaskUtil_applyMaskPenaltyRule4:div#0":         "numTotalCells = dimension^2 >= 441",
+	"qrcode/encoder.getNumDataBytesAndNumECBytesForBlockID:div#0": "numRSBlocks is the block count of a VERSIONS entry: >= 1 (T-QRVER)",
+	"qrcode/encoder.getNumDataBytesAndNumECBytesForBlockID:div#1": "numRSBlocks >= 1 (see div#0)",
+	"qrcode/encoder.getNumDataBytesAndNumECBytesForBlockID:div#2": "numRSBlocks >= 1 (see div#0)",
 }
 
 func runEDIV(c *Ctx, r *Report, reach map[*ssa.Function]bool, scope string) {
